@@ -30,6 +30,8 @@ Definition classification : list (string * string * string * klass * string * st
    "dependency list of the document being parsed (settings object of the current document)");
   ("myst_parser/mocking.py", "MockRSTParser.parse", "roles._roles['']", RestoredInFinally, "default-role",
    "docutils' RST parser removes the default role at the end of a parse; the mock puts the previous entry back");
+  ("myst_parser/parsers/docutils_.py", "Parser.parse", "roles._roles.pop", RestoredInFinally, "default-role",
+   "the default role a {default-role} directive may have set during the parse is removed at the end of the parse (as the docutils rST parser does): the entry is absent before and after every parse");
   ("myst_parser/parsers/docutils_.py", "Parser.parse", "HTMLTranslator.visit_rubric", IdempotentConst, "html-writer",
    "module-level function assigned at the very start of every parse; only writers read it");
   ("myst_parser/parsers/docutils_.py", "Parser.parse", "HTMLTranslator.depart_rubric", IdempotentConst, "html-writer", "see visit_rubric");
